@@ -422,7 +422,7 @@ class G:
         saved = self.scopes
         self.scopes = [{p: ("float", 64, True) for p in ps}]
         for _ in range(r.randint(1, 4)):
-            if r.random() < 0.12:
+            if r.random() < 0.12 and self.p.get("gate_phase", True):
                 self.emit("gphase(%s);" % self.float_expr(1), 1)
             else:
                 self.gate_call(1, in_gate_body=qs)
